@@ -387,8 +387,36 @@ def _must_compute(project, fi, cls, memo):
     return memo[key]
 
 
+def _decorator_computes_first(project, fi) -> bool:
+    """a decorator of the package wraps the method so that `<self>.compute_landscape()` always runs before the method body
+    (`def wrapper(self, *a, **k): self.compute_landscape(); return method(self, *a, **k)`)"""
+    from ..core.cfg import CFG
+    from .common import decorator_wrappers
+    for g, w, fname in decorator_wrappers(project, fi):
+        if not w.args.args:
+            continue
+        me = w.args.args[0].arg
+        cfg = CFG(w)
+        gates, calls = set(), set()
+        for nd in cfg.nodes:
+            a = nd.ast
+            if a is None or nd.kind not in ("stmt", "return", "test"):
+                continue
+            for c in ast.walk(a.test if nd.kind == "test" and hasattr(a, "test") else a):
+                if isinstance(c, ast.Call) and isinstance(c.func, ast.Attribute) and c.func.attr == "compute_landscape" \
+                        and isinstance(c.func.value, ast.Name) and c.func.value.id == me:
+                    gates.add(nd.id)
+                if isinstance(c, ast.Call) and isinstance(c.func, ast.Name) and c.func.id == fname:
+                    calls.add(nd.id)
+        if gates and calls and all(cfg.must_pass_through(cfg.entry.id, c_, gates) for c_ in calls):
+            return True
+    return False
+
+
 def _compute_gates(project, fi, cls, cfg, memo):
     gates = set()
+    if _decorator_computes_first(project, fi):
+        gates.add(cfg.entry.id)   # the landscape is computed before the body is entered
     for nd in cfg.nodes:
         a = nd.ast
         if a is None or nd.kind not in ("stmt", "return", "test"):
